@@ -49,6 +49,15 @@ func concPool(r *rng, n int, accum bool) []concInput {
 		kind := []string{"decode", "decode", "chained", "integ", "header"}[i%5]
 		pool = append(pool, concInput{kind: kind, data: data})
 	}
+	// large inputs (data sections beyond 4 KiB, 32 KiB and 64 KiB): any buffer shared between calls
+	// above a size threshold is only used by these
+	for i, recs := range []int{500, 700, 2500, 6000, 600, 3000, 800, 5000} {
+		kk := k
+		kk.records = recs
+		data := frame(randomStream(r, kk), defaultFrame())
+		kind := []string{"integ", "integ", "integ", "decode", "chained", "decode", "header", "integ"}[i%8]
+		pool = append(pool, concInput{kind: kind, data: data})
+	}
 	for i := 0; i < n/3; i++ {
 		ft := hostedFileTypes()[i%len(hostedFileTypes())]
 		pool = append(pool, concInput{kind: "encode", file: randFileText(r, ft, fileKnobs{maxGroup: 4, fieldPct: 25}), arch: fmt.Sprint(i % 2)})
